@@ -38,6 +38,12 @@ int sym_choose(const char* name, int n)
 {
     return symc::choice_in(choices, name, n);
 }
+// tolerance of the IEEE replay (relative to 1+|a|+|b|); units whose obligations compare direct inputs can tighten it
+static double replay_tol()
+{
+    static const double t = getenv("SYM_REPLAY_TOL") ? atof(getenv("SYM_REPLAY_TOL")) : 1e-6;
+    return t;
+}
 void sym_assume_cmp(double a, int op, double b)
 {
     // validation runs on pseudo-random inputs: an assumption that fails ends the run, exactly as in the instrumented build
@@ -59,7 +65,7 @@ void sym_check_cmp(double a, int op, double b, const char* label)
 {
     ++checks;
     printf("OUT %s %a %a\n", label, a, b);
-    if (!symc::concrete_holds(a, op, b, 1e-6))
+    if (!symc::concrete_holds(a, op, b, replay_tol()))
     {
         ++violations;
         printf("CONFIRMED-VIOLATION label=%s a=%.17g b=%.17g op=%d\n", label, a, b, op);
